@@ -249,7 +249,8 @@ func NewUpstream(addr string, opt Opt) (_ Upstream, err error) {
 			quicConfig := newDefaultClientQuicConfig()
 			quicConfig.MaxIdleTimeout = idleConnTimeout
 
-			addonCloser = quicTransport
+			// quicTransport does not close conn.
+			addonCloser = closerFunc(func() error { quicTransport.Close(); return conn.Close() })
 			t = &http3.RoundTripper{
 				TLSClientConfig: opt.TLSConfig,
 				QuicConfig:      quicConfig,
@@ -356,13 +357,29 @@ func NewUpstream(addr string, opt Opt) (_ Upstream, err error) {
 			}
 			return c, nil
 		}
-		return transport.NewQuicTransport(transport.QuicTransportOpts{
-			DialContext: dialQuicConn,
-			Logger:      logger,
-		}), nil
+		return &upstreamWithCloser{
+			Transport: transport.NewQuicTransport(transport.QuicTransportOpts{
+				DialContext: dialQuicConn,
+				Logger:      logger,
+			}),
+			// t does not close uc.
+			closer: closerFunc(func() error { t.Close(); return uc.Close() }),
+		}, nil
 	default:
 		return nil, fmt.Errorf("unsupported protocol [%s]", addrURL.Scheme)
 	}
+}
+
+// upstreamWithCloser closes closer after the Transport was closed.
+type upstreamWithCloser struct {
+	transport.Transport
+	closer io.Closer
+}
+
+func (u *upstreamWithCloser) Close() error {
+	err := u.Transport.Close()
+	u.closer.Close()
+	return err
 }
 
 type closerFunc func() error
